@@ -204,6 +204,14 @@ CHECKS = {
         note="Partial: getBackupContext's token-level condition parsing is end-to-end only. Known findings K29 (elsif with a negated test ignores earlier narrowing) and K30 (negative branch of an && chain narrows every chained variable): `_partial` scope = single-atom conditions and positive chains.",
         technique="Lean 4 proof (case analysis over the narrowing model) + differential stream over a hook + regenerated source facts + end-to-end reference comparison",
     ),
+    "C11": dict(
+        category="proof",
+        text="Table-level non-interference proved in Lean on the analysis model: for every initial table and every operation sequence of a fragment, each lookup at a key the fragment does not write (configured declarations, the host's variables and methods) and each host call of a configured method gives the same result with and without the fragment (fragment_invisible, host_call_unaffected); block scopes and narrowing restore what they touch (C17, C10). The model's premise is tied by C12's in-process snapshot op. "
+             "What is not a table (parser flags, the last evaluated value at a statement boundary, error recovery) is checked end-to-end: typed-grammar fragments with their own variable prefix, including statements that begin with a literal receiver, inserted at top-level and nested boundaries followed by another statement, and whole programs appended, in corpus and generated hosts; every output line outside the fragment (plain and -i) unchanged up to the row shift; a fragment clean on its own must stay clean next to the host.",
+        design="DESIGN.md §4 C11",
+        note="Partial: the parser-level state is outside the model (end-to-end only). A leak (statement beginning with `[` indexed the previous value) was repaired by a fix: commit. Known finding K31: an empty brace block inside a conditional ends it early. Fragments reported when analysed alone are skipped (recovery effects).",
+        technique="Lean 4 proof (induction over operation sequences) + metamorphic end-to-end insertion / appending comparison",
+    ),
     "C17": dict(
         category="proof",
         text="Scope core on the Go-map model of TFrame: Lean proves for EVERY sequence of writes performed inside a block that a key absent from the entry snapshot (and not written back) is absent after the block, that outer variables keep what the block assigned to them, that a shadowed variable gets its saved value back (distinct restore keys), "
